@@ -906,3 +906,7 @@ mod resume {
         Ok(())
     }
 }
+
+#[cfg(any(kani, verif_replay))]
+#[path = "/verif/kani/casep.rs"]
+pub(crate) mod verif_kani_casep;
